@@ -24,6 +24,10 @@ Values produced by user callbacks are not decided.
 Round 4: whichever method of Sequence _compile installs behind .unpack for a mode is held to
 the event language of that mode; the normalisers are checked by role (count / condition), whether
 they are two functions or one told its role by a constant argument.
+
+Round 5: (i) the deferred-expression evaluator keeps nothing between evaluations (C09-d); (j)
+generated drivers index pkt.get_fields() of the packet at hand; (g) late binding looks at the
+fate of the closure.
 """
 import ast
 
